@@ -8,6 +8,7 @@ import Mathlib.Data.List.Nodup
 import ERP.Lemmas.GenArith
 import ERP.Lemmas.GenTemplates
 import ERP.Lemmas.GenTies
+import ERP.Lemmas.RetractExact
 /-! # C07 — Commands synthesised by the filter are well-formed plain-decimal G-code
 
 `formatNumber` is the model of `CommonMixin.formatNumber` applied to `str(value)`; the text CPython's
